@@ -62,7 +62,8 @@ REPS = (
     "EOF", "ComplexEOF", "HilbertEOF", "ExtendedEOF", "SparsePCA", "POP", "OPA", "EOFRotator",
     "HilbertEOFRotator", "MCA", "CPCCA", "HilbertCCA", "ComplexRDA", "MCARotator", "CPCCARotator",
 )
-CONTAINERS = ("da1", "da2", "da2s", "mi_feat", "mi_samp", "dataset", "list", "list_ds")
+CONTAINERS = ("da1", "da2", "da2s", "mi_feat", "mi_samp", "dataset", "list", "list_ds", "list12")
+EXTRAS = ("none", "scalar", "1d", "2d")
 HAS_LAT = {"da2", "dataset"}
 NANS = ("none", "feature", "sample")
 LAZY = ("eager", "dask_eager", "lazy_pre", "lazy_post")
@@ -221,7 +222,7 @@ def kwargs_for(name, case):
 # cases
 # --------------------------------------------------------------------------
 def _case(cls, container="da2", nan="none", attr="plain", where="data", pv="default", lazy="eager", hist="none",
-          name="default", cplx=False, dseed=0, base_i=0):
+          name="default", cplx=False, dseed=0, base_i=0, extra="none"):
     if container not in HAS_LAT and pv == "coslat":
         pv = "default"
     if where == "global" and container not in ("dataset", "list_ds"):
@@ -229,7 +230,7 @@ def _case(cls, container="da2", nan="none", attr="plain", where="data", pv="defa
     if cplx and cls not in zoo.COMPLEX_INPUT_OK:
         cplx = False
     return dict(cls=cls, container=container, nan=nan, attr=attr, where=where, pv=pv, lazy=lazy, hist=hist,
-                name=name, cplx=bool(cplx), dseed=int(dseed), base_i=int(base_i))
+                name=name, cplx=bool(cplx), dseed=int(dseed), base_i=int(base_i), extra=extra)
 
 
 def _draw(rng):
@@ -249,6 +250,7 @@ def _draw(rng):
         cplx=bool(rng.random() < 0.5),
         dseed=int(rng.integers(0, 2**31 - 1)),
         base_i=int(rng.integers(0, 4)),
+        extra=str(rng.choice(EXTRAS, p=[0.64, 0.12, 0.12, 0.12])),
     )
 
 
@@ -305,6 +307,17 @@ def cases(tier, seed):
         out.append(_case("EOF", "da2", name=nm, dseed=700 + i))
         out.append(_case("EOF", "dataset", name=nm, dseed=740 + i))
         out.append(_case("MCA", "dataset" if i % 2 else "list", name=nm, dseed=720 + i))
+    # H. non-index coordinates next to the dimension coordinates (a scalar left behind by .sel(), a region name
+    #    along a feature dim and a phase along the sample dim, a 2-D mask over two feature dims)
+    for i, cls in enumerate(("EOF", "MCA", "EOFRotator") if quick else REPS):
+        for j, cont in enumerate(("da2", "da2s", "mi_feat", "mi_samp", "dataset", "list")):
+            for k, ex in enumerate(EXTRAS[1:]):
+                if quick and (i + j + k) % 3:
+                    continue
+                out.append(_case(cls, cont, extra=ex, dseed=800 + 10 * i + j, base_i=j))
+    # I. lists of more than ten items (the per-item transformers are stored under the string keys '0', '1', ..)
+    for i, cls in enumerate(("EOF", "MCA", "EOFRotator", "CCA")):
+        out.append(_case(cls, "list12", hist=("transform_new", "none")[i % 2], dseed=900 + i, base_i=i))
     n_all = len(CLASSES)
     for i, c in enumerate(out):
         # quick: section A and the attribute catalogue placed on the data run all six round trips, the other
@@ -326,7 +339,7 @@ def cases(tier, seed):
 def required(tier):
     cover = [f"cls:{c}" for c in CLASSES] + [f"container:{c}" for c in CONTAINERS]
     cover += [f"lazy:{z}" for z in ("eager", "lazy_pre", "lazy_post")] + [f"hist:{h}" for h in HISTS]
-    cover += [f"nan:{z}" for z in NANS] + ["rot_reordered:True", "rebuilt_lazy:True"]
+    cover += [f"nan:{z}" for z in NANS] + ["rot_reordered:True", "rebuilt_lazy:True"] + [f"extra:{e}" for e in EXTRAS]
     cover += [f"attr:{k}" for k in ATTR_QUICK]
     cover += [f"op:{o}" for o in ("components", "scores", "transform_fit", "transform_new", "inverse_transform", "predict")]
     return {
@@ -432,6 +445,18 @@ def _sample_dims(container):
 def _field(container, n, rng, cplx, s0, fi, nan, new):
     if container == "list":
         return [_leaf("da2", n, rng, cplx, s0, fi, nan, new, dates=False), _leaf("da1", n, rng, cplx, s0, fi + 1, nan, new)]
+    if container == "list12":
+        out = []
+        for k in range(12):
+            a = _arr(rng, (n, 2 + k % 3), cplx)
+            if nan == "feature" and k == 11:
+                a[:, 1] = np.nan
+            if nan == "sample" and not new:
+                a[2] = np.nan
+            import xarray as xr
+
+            out.append(xr.DataArray(a, dims=("time", f"x{k}"), coords={"time": np.arange(s0, s0 + n), f"x{k}": np.arange(2 + k % 3) * (k + 1.0)}, name=f"v{fi}_{k}"))
+        return out
     if container == "list_ds":
         return [_leaf("dataset", n, rng, cplx, s0, fi, nan, new), _leaf("da1", n, rng, cplx, s0, fi + 1, nan, new)]
     return _leaf(container, n, rng, cplx, s0, fi, nan, new)
@@ -439,6 +464,29 @@ def _field(container, n, rng, cplx, s0, fi, nan, new):
 
 def _leaves(obj):
     return list(obj) if isinstance(obj, (list, tuple)) else [obj]
+
+
+def _extras(field, kind, sdims):
+    """non-index coordinates on every leaf (the data and the index coordinates stay as they are)"""
+    if kind == "none":
+        return field
+    leaves = _leaves(field)
+    out = []
+    if kind == "2d" and len(leaves) > 1:
+        kind = "1d"  # a coordinate present in only some list items makes fit raise (recorded finding of C02)
+    for leaf in leaves:
+        fd = [d for d in leaf.dims if d not in sdims]
+        if kind == "scalar":
+            leaf = leaf.assign_coords(height=2.0)
+        elif kind == "1d" or len(fd) < 2:
+            d = fd[0]
+            leaf = leaf.assign_coords(region=(d, np.array([f"r{i % 2}" for i in range(leaf.sizes[d])])))
+            leaf = leaf.assign_coords(phase=(sdims[0], np.arange(leaf.sizes[sdims[0]]) % 3))
+        else:
+            a, b = fd[0], fd[1]
+            leaf = leaf.assign_coords(mask=((a, b), (np.add.outer(np.arange(leaf.sizes[a]), np.arange(leaf.sizes[b])) % 2).astype(float)))
+        out.append(leaf)
+    return out if isinstance(field, (list, tuple)) else out[0]
 
 
 def _decorate(field, case, sdims):
@@ -492,8 +540,8 @@ def build(case):
         rng = gen.rng_for(case["dseed"], 13, fi)
         f = _field(cont, n, rng, case["cplx"], 0, 3 * fi, case["nan"], False)
         g = _field(cont, n_new, rng, case["cplx"], 40, 3 * fi, case["nan"], True)
-        fields.append(_decorate(f, case, sdims))
-        new_fields.append(_decorate(g, case, sdims))
+        fields.append(_extras(_decorate(f, case, sdims), case.get("extra", "none"), sdims))
+        new_fields.append(_extras(_decorate(g, case, sdims), case.get("extra", "none"), sdims))
     if case["lazy"] != "eager":
         def ch(o):
             if isinstance(o, list):
@@ -1018,7 +1066,8 @@ def run_case(case, obs):
     cfg = _cfg_tags(case)
     obs.cell(f"cls:{name}", f"container:{case['container']}", f"nan:{case['nan']}", f"attr:{case['attr']}",
              f"where:{case['where']}", f"pv:{case['pv']}", f"lazy:{case['lazy']}", f"hist:{case['hist']}",
-             f"name:{case['name']}", f"cplx:{case['cplx']}", f"combos:{case.get('combos', 'all')}")
+             f"name:{case['name']}", f"cplx:{case['cplx']}", f"combos:{case.get('combos', 'all')}", f"extra:{case.get('extra', 'none')}")
+    obs.tag(extra_coords=case.get("extra", "none"))
     for k in HOOK:
         HOOK[k] = 0
     fields, new_fields, dim = build(case)
